@@ -484,5 +484,5 @@ def independent_cvc5(ctx, ob):
     s = z3.Solver()
     for a in enc.assertions:
         s.add(a)
-    res, dt = check_cvc5(s, CVC5_TIMEOUT_S)
+    res, dt = check_cvc5(s, min(CVC5_TIMEOUT_S, 10))
     return res, dt
